@@ -28,6 +28,7 @@ def declare(c):
     c.rule('C18.R7', 'checksum bookkeeping on every path of parse: when the checksum group took part in the match, text is group 2 '
                      'without its "*"+checksum tail, rawChecksum is "*"+group 10 and checksum is int(group 10) - whatever the '
                      'number is; otherwise text is group 2 and both are None (validate() checksums leadingWhitespace + text)', floor=4)
+    c.rule('C18.R8', 'parse(text) reads the text it is given from offset 0, whatever the parser held before (also the same text twice)', floor=2)
     c.rule('C18.R5', 'freshness: every attribute a reader uses is re-assigned by every parse (no value of the previous '
                      'line survives)', floor=10)
     c.rule('C18.R6', 'the text a rendered checksum is computed over is the text validate() checks it against', floor=1)
@@ -242,6 +243,32 @@ def checksum_bookkeeping(ctx, I, s):
                     ctx.report('C18.R7', where, 'no checksum but rawChecksum/checksum is %r' % (r,), 'both must be None')
 
 
+def rewind_rule(ctx, I, rule):
+    """parse(text) with an explicit text reads THAT text from its beginning, whatever the (shared, long-lived) parser read
+    before - also when the same command text is parsed twice in a row"""
+    st = stale_state()
+    res = I.run_method(st, GP, 'parse', Obj('GP'), [SStr('SRC')])
+    n = 0
+    for (s, v) in res:
+        if isinstance(v, Raised):
+            continue
+        n += 1
+        ctx.instance(rule, tuple(sorted((repr(k)[:60], tuple(sorted(map(str, d)))) for k, d in s.dom.items() if k[0] in ('eq', 'is'))))
+        for src in live_alts(s, s.heap.get(('GP', 'source'))):
+            same = isinstance(src, SStr) and src.tag == 'SRC'
+            decided_equal = any(k[0] == 'eq' and 'STALE.source' in repr(k) and d == frozenset([True]) for k, d in s.dom.items())
+            if not same and not decided_equal:
+                ctx.report(rule, 'GcodeParser.parse', 'source after parse(text) is %r' % (src,),
+                           'the parser does not take over the text it was given')
+        for off in live_alts(s, s.heap.get(('GP', 'offset'))):
+            if not (isinstance(off, Num) and off.is_const() and off.p.const_value() == 0):
+                ctx.report(rule, 'GcodeParser.parse', 'offset after parse(text) is %r' % (getattr(off, 'p', off),),
+                           'parse(text) does not start at the beginning of the text it was given (for example when the text equals '
+                           'the one parsed before): the second of two identical commands is read as an empty line and its words are lost')
+    if n == 0:
+        raise AnalysisError('parse has no normal path')
+
+
 def advance_rules(ctx, I, ok_paths):
     # second parse() without arguments continues right after the first match
     s0 = ok_paths[0][0].clone()
@@ -369,6 +396,7 @@ def run(ctx, tier):
     I = parser_interp(ctx.model, unroll=3 if tier == 'thorough' else 2)
     ok_paths = parse_rules(ctx, I)
     advance_rules(ctx, I, ok_paths)
+    rewind_rule(ctx, I, 'C18.R8')
     checksum_rule(ctx, I)
     ctx.assume('the class alphabet (16 classes) is exact for every character class of the patterns (checked)')
     ctx.assume('re.match returns the leftmost match anchored at the given offset; group structure as in re._parser')
